@@ -552,6 +552,17 @@ impl<'src> Walker<'src>
 		{
             let c = self.char_at(byte_index);
 
+            // Skip over comments
+            if c == ';'
+            {
+                let token = self.token_at(byte_index);
+                if token.kind == syntax::TokenKind::Comment
+                {
+                    byte_index += token.span.length();
+                    continue;
+                }
+            }
+
             if c.eq_ignore_ascii_case(&wanted_char) &&
                 seen_tokens &&
                 paren_nesting == 0 &&
